@@ -13,11 +13,17 @@ CLAIMS = {
        "extract) equals the abstract specification for EVERY valid string set, bucket size, query and id (pfc_locate_spec, "
        "pfc_extract_spec, round trip both ways); (2) double hashing as used by the four hash kinds finds every inserted key in the cell "
        "insert chose and IDs (rank of the occupied cell) are a bijection onto [1,n] (dh_search_inserted, dh_id_bijection, parametric in "
-       "the hash values); (3) the abstract specification itself is a bijection [1,n] <-> S. Tie: all 13 kinds x parameters x "
+       "the hash values) and, end to end, HASHRPDAC / HASHRPF (all three load options) / HASHRPDACBlocks answer like the specification over "
+       "a permutation of S (hashrpdac_spec, hashrpf_spec, hashrpdac_blocks_spec, for every object passing the verified checker); (3) the "
+       "bit-exact RPFC model (Re-Pair packed internal strings), RPDAC (compare-while-expanding binary search) and the FM-index model equal "
+       "the specification (rpfc_locate_spec/rpfc_extract_spec, rpdac_*_spec, fm_*_spec, each for every object certified by its verified "
+       "checker); (4) the abstract specification itself is a bijection [1,n] <-> S. Tie: all 13 kinds x parameters x "
        "{fresh, reloaded} compared with the extracted specification on every id and member; PFC additionally at layout level "
        "(text bytes, offsets) and query level against the extracted concrete model.",
-  note="Kinds other than PFC and the hash protocol are tied to the specification by correspondence only (no concrete model of RPFC/HT*/"
-       "RPDAC/FMINDEX/XBW decoding): for those the theorem content is 'the specification has the property'. Known findings: see known_findings.json.",
+  note="PFC is proved from the constructor on; RPFC, RPDAC, FMINDEX, HASHRPDAC, HASHRPF, Blocks are proved for every object whose dumped "
+       "state passes a verified checker (the constructors' Re-Pair / suffix-sorting choices are validated per instance, not verified); "
+       "HTFC/HHTFC/RPHTFC/HASHHF/HASHUFFDAC (chunked decoding table) and XBW are tied to the specification by correspondence only. "
+       "RPFC theorems need strings shorter than 2^14 (the real code breaks on 3-byte VBytes: recorded defect). Known findings: known_findings.json.",
   technique="Coq proof (induction over the string list / bucket scan invariants) + extracted-model/implementation correspondence"),
  "C02": dict(
   text="Coq theorems: PFC model returns 0 for every non-member NUL-free query and NULL for every id outside [1,n] incl. ids >= 2^32 "
